@@ -194,6 +194,8 @@ EvalElts(elts, i, Om, c, outer) ==
            \* named deviation KF_C04_pushdown (c.dev): a nested group joined after other elements is evaluated once per
            \* solution so far, with that solution's bindings visible inside it (rdflib's lazy join)
            [] e.t = "group" /\ c.dev -> Flatten([j \in 1..Len(Om) |-> EvalGroup(e.g, c, Om[j])])
+           \* ... and so is a GRAPH block (a nested group under another active graph)
+           [] e.t = "graph" /\ c.dev -> Flatten([j \in 1..Len(Om) |-> EvalElt(e, c, Om[j])])
            \* ... and so is a sub-SELECT: its non-projected variables are then correlated with outer variables of the same name
            [] e.t = "subselect" /\ c.dev -> Flatten([j \in 1..Len(Om) |-> Join(<<Om[j]>>, EvalQuery(e.q, [c EXCEPT !.init = Om[j]]).rows)])
            [] OTHER          -> Join(Om, EvalElt(e, c, outer)),
